@@ -682,8 +682,11 @@ Proof.
       assumption.
     + apply bs_doc_ok_arr_keys. assumption.
   - cbn [enc_value value_ok] in *. apply bs_bool_split in Hok. destruct Hok as [Hst Hb].
-    apply N.ltb_lt in Hst.
-    apply bs_wf_app; [apply bs_le_enc_wf|]. constructor; [assumption|].
+    assert (Hst' : (st < 256)%N).
+    { apply orb_true_iff in Hst. destruct Hst as [Hst | Hst].
+      - apply N.leb_le in Hst. lia.
+      - apply andb_true_iff in Hst. destruct Hst as [_ Hst]. apply N.ltb_lt in Hst. exact Hst. }
+    apply bs_wf_app; [apply bs_le_enc_wf|]. constructor; [exact Hst'|].
     apply bs_bytes_ok_wf. assumption.
   - constructor.
   - cbn [enc_value value_ok] in *. apply bs_bool_split in Hok.
